@@ -52,4 +52,7 @@ def main(rep: Report, replay: dict | None, which=("A", "C", "B"), pair=False) ->
         from .. import seek_replay
 
         seek_replay.run(rep)
+        from .. import ctor_replay
+
+        ctor_replay.run(rep)
     rep.exhaustive = False
